@@ -560,7 +560,8 @@ mod verif_driver_compile {
                     _ => None,
                 };
                 if got != Some(v) {
-                    witness("c09_cardano/Number::try_as_data#postcondition", "try_as_data", format!("integer {v} via {path}"), format!("{r:?}").chars().take(120).collect(), "an integer datum with exactly this value");
+                    let (ob, f) = if path == "compile_data_expr" { ("c09_cardano/compile_data_expr#postcondition", "compile_data_expr") } else { ("c09_cardano/Number::try_as_data#postcondition", "try_as_data") };
+                    witness(ob, f, format!("integer {v} via {path}"), format!("{r:?}").chars().take(120).collect(), "an integer datum with exactly this value");
                 }
             }
         }
@@ -686,6 +687,57 @@ mod verif_driver_compile {
             }
         }
         println!("VERIF-CASES fn=compile_mint_block n={n}");
+    }
+
+    // ---- C10: auxiliary data (and its hash) is present exactly when metadata is present; values hold no empty multiasset
+    #[test]
+    fn presence_and_empty_entries() {
+        let mut n = 0;
+        let pparams = PParams { network: Network::Testnet, min_fee_coefficient: 44, min_fee_constant: 155381, coins_per_utxo_byte: 4310, cost_models: HashMap::new() };
+        let addr = || { let mut a = vec![0x61u8]; a.extend(vec![4u8; 28]); tir::Expression::Address(a) };
+        let input = || tir::Input { name: "a".into(), utxos: tir::Expression::UtxoRefs(vec![tx3_tir::model::core::UtxoRef { txid: vec![1; 32], index: 0 }]), redeemer: tir::Expression::None };
+        // metadata whose entries are absent values
+        for metas in [vec![], vec![(1i128, tir::Expression::None)], vec![(1, tir::Expression::None), (2, tir::Expression::None)], vec![(1, num(5)), (2, tir::Expression::None)], vec![(1, num(5))]] {
+            n += 1;
+            let mut tx = empty_tx();
+            tx.inputs = vec![input()];
+            tx.outputs = vec![tir::Output { address: addr(), datum: tir::Expression::None, amount: tir::Expression::Assets(vec![ada(2_000_000)]), optional: false }];
+            tx.metadata = metas.iter().map(|(k, v)| tir::Metadata { key: num(*k), value: v.clone() }).collect();
+            let desc = format!("metadata values {:?}", metas.iter().map(|(_, v)| format!("{v:?}")).collect::<Vec<_>>());
+            match quiet(|| entry_point(&tx, &pparams)) {
+                Ok(Ok(t)) => {
+                    let entries = match &t.auxiliary_data { pallas::codec::utils::Nullable::Some(a) => match &**a { primitives::AuxiliaryData::PostAlonzo(p) => p.metadata.as_ref().map(|m| m.len()), _ => None }, _ => None };
+                    let has_aux = matches!(t.auxiliary_data, pallas::codec::utils::Nullable::Some(_));
+                    let has_hash = t.transaction_body.auxiliary_data_hash.is_some();
+                    if has_aux != has_hash || (has_aux && entries.unwrap_or(0) == 0) {
+                        witness("c10_cardano/entry_point#presence", "entry_point", desc, format!("auxiliary data present={has_aux} with {entries:?} entries, hash present={has_hash}"), "auxiliary data and its hash are present exactly when there is at least one metadata entry");
+                    }
+                }
+                Ok(Err(_)) => {}
+                Err(p) => witness("c14_cardano/entry_point#reachable-panic", "entry_point", desc, format!("panic:{p}"), "Ok or Err"),
+            }
+        }
+        // an output whose whole amount is one token of quantity zero (or below): a coin value, or an error - never an empty multiasset
+        for q in [0i128, -1, 1] {
+            for with_ada in [false, true] {
+                n += 1;
+                let mut amount = vec![tok(3, "Z", q)];
+                if with_ada { amount.insert(0, ada(2_000_000)); }
+                let out = tir::Output { address: addr(), datum: tir::Expression::None, amount: tir::Expression::Assets(amount), optional: false };
+                match quiet(|| compile_output_block(&out, Network::Testnet)) {
+                    Ok(Ok(primitives::TransactionOutput::PostAlonzo(p))) => if let primitives::Value::Multiasset(_, m) = &p.value {
+                        if m.is_empty() || m.iter().any(|(_, a)| a.is_empty()) {
+                            witness("c10_cardano/compile_output_block#no-empty-entries", "compile_output_block", format!("token quantity {q}, with lovelace: {with_ada}"), "a multiasset value with an empty map / an empty policy entry".into(), "a coin value or a non-empty multiasset");
+                        }
+                    },
+                    Ok(_) => {}
+                    Err(p) => witness("c14_cardano/compile_output_block#reachable-panic", "compile_output_block", format!("token quantity {q}"), format!("panic:{p}"), "Ok or Err"),
+                }
+            }
+        }
+        println!("VERIF-CASES fn=entry_point n={n}");
+        println!("VERIF-CASES fn=compile_output_block n={n}");
+        println!("VERIF-CASES fn=compile_auxiliary_data n={n}");
     }
 
     // ---- C10 (reproducibility, whole transaction): a template with several elements in EVERY list-like section compiled
